@@ -57,6 +57,81 @@ func New(ty string, order int) (Tree, error) {
 	return nil, fmt.Errorf("unknown type %q", ty)
 }
 
+// ---- values ----
+//
+// Values travel as tokens without blanks: "nil", a decimal int64, or a slice of
+// int64 written "[1,2,3]" ("[]" = empty slice). Slice values make the stored
+// interface{} values UNCOMPARABLE (== on two of them panics), which tree code
+// must never do.
+
+// ParseVal parses a value token.
+func ParseVal(s string) (interface{}, bool) {
+	if s == "nil" {
+		return nil, true
+	}
+	if len(s) >= 2 && s[0] == '[' && s[len(s)-1] == ']' {
+		out := []int64{}
+		body := s[1 : len(s)-1]
+		if body == "" {
+			return out, true
+		}
+		for _, p := range strings.Split(body, ",") {
+			n, err := strconv.ParseInt(p, 10, 64)
+			if err != nil {
+				return nil, false
+			}
+			out = append(out, n)
+		}
+		return out, true
+	}
+	n, err := strconv.ParseInt(s, 10, 64)
+	if err != nil {
+		return nil, false
+	}
+	return n, true
+}
+
+// FmtVal prints a value as its canonical token.
+func FmtVal(v interface{}) string {
+	switch tv := v.(type) {
+	case nil:
+		return "nil"
+	case int64:
+		return strconv.FormatInt(tv, 10)
+	case []int64:
+		var sb strings.Builder
+		sb.WriteByte('[')
+		for i, n := range tv {
+			if i > 0 {
+				sb.WriteByte(',')
+			}
+			sb.WriteString(strconv.FormatInt(n, 10))
+		}
+		sb.WriteByte(']')
+		return sb.String()
+	}
+	return fmt.Sprintf("?%v", v)
+}
+
+// CloneVal returns a value that shares no memory with v (callbacks are pure:
+// a slice handed out twice must not alias).
+func CloneVal(v interface{}) interface{} {
+	if s, ok := v.([]int64); ok {
+		return append(make([]int64, 0, len(s)), s...)
+	}
+	return v
+}
+
+// BulkKey is the key token number j of the `bulk` protocol line: decimal for the
+// integer types and Comparable (tag 0), three base-200 "digits" (offset 33) for
+// strings; ascending in j for j >= 0 (strings: j < 8 000 000).
+func BulkKey(ty string, j int64) string {
+	if ty == "str" {
+		return strconv.FormatInt(j/40000+33, 10) + "." + strconv.FormatInt((j/200)%200+33, 10) + "." + strconv.FormatInt(j%200+33, 10)
+	}
+	return strconv.FormatInt(j, 10)
+}
+
 // ---- native key conversions ----
 
 func parseInt32(s string) int32 {
@@ -165,6 +240,26 @@ func fmtComparable(k gobptree.Comparable) string {
 		return strconv.FormatInt(ck.Cls, 10)
 	}
 	return strconv.FormatInt(ck.Cls, 10) + "#" + strconv.FormatInt(t, 10)
+}
+
+// CanonKey returns the canonical spelling of a key token (what FmtKey prints for the
+// key the token denotes): "7#0" -> "7" for Comparable keys.
+func CanonKey(ty, s string) string {
+	switch ty {
+	case "i32":
+		return fmtInt32(parseInt32(s))
+	case "i64":
+		return fmtInt64(parseInt64(s))
+	case "u32":
+		return fmtUint32(parseUint32(s))
+	case "u64":
+		return fmtUint64(parseUint64(s))
+	case "str":
+		return fmtString(parseString(s))
+	case "cmp":
+		return fmtComparable(parseComparable(s))
+	}
+	return s
 }
 
 func lessInt32(a, b int32) bool     { return a < b }
